@@ -66,8 +66,9 @@ theorem C10_lt_one_tick_pos (qcap : Nat → Nat) (acts : List Act) (hroom : (run
     · exact absurd h2 hpos
 
 /-- Exactly once: every request id ever issued (`a < nextId`) occurs exactly once among
-    parked senders ++ request channel ++ heap ++ the request being handed over ++ forwarded,
-    and no other id occurs; in particular no request is placed on a queue twice. -/
+    parked senders ++ request channel ++ heap ++ the request being handed over ++ forwarded ++ dropped
+    (`dropped` = consumed through the closeChan branch of a CLOSED target queue — the only way a request ends without
+    being placed), and no other id occurs; in particular no request is placed on a queue twice. -/
 theorem C10_once (qcap : Nat → Nat) (acts : List Act) :
     (∀ a, idCount (run qcap acts) a = if a < (run qcap acts).nextId then 1 else 0) ∧
     ((run qcap acts).forwarded.map (fun x => x.1.id)).Nodup := by
@@ -130,6 +131,16 @@ def C10_demo4 : List Act :=
 
 example : (run (fun _ => 4) C10_demo4).forwarded.map (fun x => (x.1.sent, x.1.trigger, x.2)) =
     [(1000000000, 1000000000, 1000000000)] := by decide +kernel
+
+/-- a closed target queue does not stall the tick: queue 0 is closed, its task (deadline 1) is consumed through the
+    closeChan branch and the open queue 1's task (deadline 2) is placed in the same tick -/
+def C10_demo6 : List Act :=
+  [.sendDelayed 0 1, .sendDelayed 1 2, .enq 0, .enq 0, .pushReq, .pushReq, .closeQ 0, .delay 1000000000, .tickFire,
+   .tickRecv, .tickTest, .forwardDrop, .tickTest, .forward, .tickTest]
+
+example : (run (fun _ => 4) C10_demo6).forwarded.map (fun x => (x.1.queue, x.2)) = [(1, 1000000000)] := by decide +kernel
+example : (run (fun _ => 4) C10_demo6).dropped.map (fun x => x.queue) = [0] := by decide +kernel
+example : (run (fun _ => 4) C10_demo6).blockedEver = false := by decide +kernel
 
 /-- outside the proviso: a full target queue (capacity 1, nobody receives) blocks the loop -/
 def C10_demo5 : List Act :=
